@@ -504,6 +504,10 @@ def strlen(s):
     return len(s)
 
 
+def byte_at(b, i):
+    return b[i] if 0 <= i < len(b) else 0
+
+
 def log_count(level=None):
     recs = _c().log_records
     if level is None:
